@@ -20,7 +20,7 @@ ReturnExprs == {"int", "float", "str", "bool", "none", "name", "tuple", "unary",
                 "compare", "index", "lambda", "listcomp", "fstring", "bytes", "complex", "ellipsis", "await", "boolop", "walrus", "starred-tuple", "self", "yield"}
 Initializers == {"double-sign", "sign-of-signed-float", "plus-minus", "neg-bool", "invert", "neg-str", "huge-float", "int", "float", "str", "bool", "none", "name", "call", "neg-int", "not-bool", "neg-name", "empty-tuple", "tuple", "list", "dict", "binop",
                  "member", "lambda", "bytes", "complex", "ellipsis", "set", "index", "conditional", "fstring"}
-ClassForms == {"generic-paramspec", "generic-typevartuple", "recursive-alias", "recursive-namedtuple", "plain", "nested", "property", "property-setter", "overload", "overload-module", "staticmethod", "classmethod", "abstract", "dataclass", "exception",
+ClassForms == {"names-with-double-underscore", "generic-paramspec", "generic-typevartuple", "recursive-alias", "recursive-namedtuple", "plain", "nested", "property", "property-setter", "overload", "overload-module", "staticmethod", "classmethod", "abstract", "dataclass", "exception",
                "enum", "intenum", "enum-empty", "nested-enum", "generic", "generic-bound", "generic-constraints", "generic-variance", "protocol", "namedtuple",
                "class-attr-forms", "slots", "init-tuple-unpack", "multiple-inheritance", "private-base", "metaclass", "inner-function", "global-assign", "async-def", "decorated",
                "subscript-assign", "starred-assign", "private-foreign-base", "foreign-base-with-private-ancestors", "generic-named-like-builtin", "strenum-flag",
